@@ -25,7 +25,9 @@ MANIFEST = {
             "Bridge: code_driver_call_history_independent for the generated tables). The premises are decided by `decide` on "
             "tables generated from the current source: RNG-access table by a closed-world AST walk over all 14 generators' "
             "mask_func and everything reachable from it (methods through the class hierarchy, module functions, nested "
-            "functions, functions of other direct.* modules such as T.center_crop; methods named like random-number entry "
+            "functions, functions of other direct.* modules such as T.center_crop; `@contextmanager` helpers of the class / module "
+            "that delegate to temp_seed, e.g. `with self._seeded_rng(seed):`, open the scope like temp_seed itself, and a stream "
+            "handed to a helper as an argument stays that stream inside it; methods named like random-number entry "
             "points on any object and torch in-place random fills are sites of an unknown stream; calls the walk cannot follow "
             "are listed and must be absent), temp_seed's statement skeleton, kernel-seed provenance, the libc event list of "
             "every .pyx kernel (srand(seed) at the top level on the unmodified int parameter, first, once; no Python-level "
@@ -43,7 +45,10 @@ MANIFEST = {
             "/ CreateSamplingMask obtain the mask of the direct seeded call; exceptions inside the seeded scope; another Cython "
             "kernel of the package (ssl gaussian_fill) and raw srand/rand() between calls; forced rare kernel seeds (0, 99999) "
             "in the thorough tier and in the failing-input search.",
-    "note": "Trusted: Lean kernel (+propext, Classical.choice, Quot.sound); the AST walk (closed world within direct.*: a call "
+    "note": "The oracle reports a failing input only when an observable breaks (a mask / ACS differs across histories, instances, "
+            "processes or call sites; a global or an already existing private stream state differs after a call; a process dies "
+            "or hangs); whether an executed draw is a listed in-scope table site is compared in the correspondence and decided "
+            "in the bridge, never presented as a failing input. Trusted: Lean kernel (+propext, Classical.choice, Quot.sound); the AST walk (closed world within direct.*: a call "
             "into an external library is classified by its dotted name only - numpy/torch/scipy functions that are not "
             "random-number entry points by name are assumed not to draw; every *executed* draw on self.rng is additionally "
             "checked to be a listed site); the regex front-end for the .pyx event lists (textual order = execution order of the "
